@@ -62,6 +62,8 @@ def OR(*args):
 
 @dispatcher.register_for('SWITCH')
 def SWITCH(target_value, *args):
+    if isinstance(target_value, error.XLError):
+        return target_value
     if len(args) <= 1:
         return error.NOT_AVAILABLE
     argc = len(args)
